@@ -293,6 +293,7 @@ func bigEvent(f string, n int, tier string) J {
 	ev["built"] = !panicked
 	ev["hdr"], ev["enclen"], ev["runs"], ev["size"] = []int{}, 0, []interface{}{}, -2
 	ev["dec"] = J{"done": false}
+	ev["msglen"], ev["msghead"] = -1, []int{}
 	if panicked {
 		return ev
 	}
@@ -323,11 +324,16 @@ func bigEvent(f string, n int, tier string) J {
 		ev["runs"] = []interface{}{J{"v": []int{-1}, "n": len(payload)}}
 	}
 	// decode a complete message carrying the item
-	if f == "L" && n > 3000000 && tier != "thorough" {
-		return ev
-	}
+	skipDecode := f == "L" && n > 3000000 && tier != "thorough"
 	msg := ast.NewHSMSDataMessage("", 1, 1, 0, "H->E", item, 7, []byte{1, 2, 3, 4}).ToBytes()
 	item = nil
+	ev["msglen"] = len(msg)
+	if len(msg) >= 14 {
+		ev["msghead"] = bytesJ(msg[:14])
+	}
+	if skipDecode {
+		return ev
+	}
 	decodeMu.Lock()
 	r := decode(msg, exact)
 	decodeMu.Unlock()
